@@ -122,6 +122,41 @@ class BDD:
 
         return rec(u)
 
+    def simplify(self, f, care):
+        """Coudert-Madre restrict: some function equal to f wherever care holds, usually
+        smaller (used only to print readable tables; comparisons are always made inside care)."""
+        memo = {}
+
+        def rec(f, c):
+            if c == 1 or f < 2:
+                return f
+            if c == 0:
+                return 0
+            k = (f, c)
+            r = memo.get(k)
+            if r is not None:
+                return r
+            tf, tc = self.top(f), self.top(c)
+            if tc < tf:
+                _, c0, c1 = self.nodes[c]
+                r = rec(f, self.OR(c0, c1))
+            else:
+                v, f0, f1 = self.nodes[f]
+                if tc == tf:
+                    _, c0, c1 = self.nodes[c]
+                else:
+                    c0 = c1 = c
+                if c0 == 0:
+                    r = rec(f1, c1)
+                elif c1 == 0:
+                    r = rec(f0, c0)
+                else:
+                    r = self.mk(v, rec(f0, c0), rec(f1, c1))
+            memo[k] = r
+            return r
+
+        return rec(f, care)
+
     def exists(self, u, vars_):
         vs = set(vars_)
         memo = {}
